@@ -109,6 +109,23 @@ def run(F, run, tier):
             cs = PI.coeffs(v.args[0])
             run.check(PI.same_poly(cs, q), "R15.4", "interp::hermite", "recovers-polynomial:" + name, F.loc(her),
                       "Hermite interpolation of a quadratic on 2 nodes gives %s" % [str(sp.simplify(c)) for c in cs])
+    # complex data from a polynomial with purely imaginary coefficients (real part exactly 0): a clean-up pass that looks at one part only erases them
+    cq = [sp.Integer(1), sp.Integer(2) - sp.I, 3 * sp.I, sp.I / 2]      # 1 + (2 − i)x + 3i x² + (i/2) x³
+    cqe = expr_of(cq)
+    xs4 = node_sets["rational-4"]
+    v = call(lag, [list(xs4), [sp.expand(cqe.subs(X, xk)) for xk in xs4], tol], "complex-poly-data", "R15.4")
+    if v is not None:
+        good = isinstance(v, sym.Variant) and v.name == "Ok" and PI.same_poly(PI.coeffs(v.args[0]), cq) and len(PI.coeffs(v.args[0])) == 4
+        run.check(good, "R15.4", "interp::lagrange", "recovers-polynomial:complex-imaginary-coefficients", F.loc(lag),
+                  "interpolating the complex cubic 1 + (2−i)x + 3i·x² + (i/2)·x³ on 4 nodes gives %s: purely imaginary coefficients are not negligible"
+                  % ([str(c) for c in PI.coeffs(v.args[0])] if isinstance(v, sym.Variant) and v.name == "Ok" else v), sample="lagrange recovers a complex cubic with imaginary coefficients")
+    xs2 = xs4[:2]
+    v = call(her, [list(xs2), [sp.expand(cqe.subs(X, xk)) for xk in xs2], [sp.expand(sp.diff(cqe, X).subs(X, xk)) for xk in xs2], tol], "complex-poly-data", "R15.4")
+    if v is not None:
+        good = isinstance(v, sym.Variant) and v.name == "Ok" and PI.same_poly(PI.coeffs(v.args[0]), cq) and len(PI.coeffs(v.args[0])) == 4
+        run.check(good, "R15.4", "interp::hermite", "recovers-polynomial:complex-imaginary-coefficients", F.loc(her),
+                  "Hermite interpolation of the complex cubic 1 + (2−i)x + 3i·x² + (i/2)·x³ on 2 nodes gives %s: purely imaginary coefficients are not negligible"
+                  % ([str(c) for c in PI.coeffs(v.args[0])] if isinstance(v, sym.Variant) and v.name == "Ok" else v), sample="hermite recovers a complex cubic with imaginary coefficients")
     run.assumptions += ["exact arithmetic with generic symbolic data; the conditioning-dependent accuracy in floating point is not decided",
                         "node counts up to %d; symbolic nodes up to 2" % nmax]
     expl = ("Both constructors are evaluated abstractly on symbolic values (and derivatives) over symbolic nodes (n <= 2) and exact rational nodes in sorted, reversed "
